@@ -13,13 +13,54 @@ import itertools
 import json
 import random
 import re
+import select
 import shutil
 import signal
 import subprocess
+import time
 
 from harness import core
 
 TIME_LIMIT = 5.0  # seconds granted to one expansion by the real code ("every expansion returns")
+MODEL_TIME_LIMIT = 20.0  # seconds granted to the Lean driver for one request (model + spec; list-based, far slower than the code)
+EXPENSIVE = 0.4  # an expansion on which the real code needs longer than this is not given to the (much slower) model and spec
+# hard wall-clock budgets in seconds: (main pass, failing-input search) per tier; the whole check stays below ~5 / ~15 minutes
+BUDGET = {"quick": (170.0, 110.0), "thorough": (690.0, 170.0)}
+
+
+def out_of_time(ctx):
+    dl = getattr(ctx, "c03_deadline", None)
+    if dl is not None and time.time() > dl:
+        if not getattr(ctx, "c03_budget_noted", False):
+            ctx.c03_budget_noted = True
+            ctx.notes.append(f"wall-clock budget reached after {ctx.dist['cases']} cases: generation stopped early "
+                             f"({len(ctx.corr_breaks)} correspondence break(s), {len(ctx.violations)} violation(s) so far)")
+            ctx.extra["stopped_by_wall_clock_budget"] = True
+        return True
+    return False
+
+
+def ask(ctx, drv, obj):
+    """one request to the Lean driver with a time limit; a driver that does not answer is killed and restarted (-> None)"""
+    drv.p.stdin.write(json.dumps(obj) + "\n")
+    drv.p.stdin.flush()
+    ready, _, _ = select.select([drv.p.stdout], [], [], MODEL_TIME_LIMIT)
+    if not ready:
+        try:
+            drv.p.kill()
+            drv.p.wait(timeout=10)
+        except Exception:  # noqa
+            pass
+        drv.__init__()
+        ctx.dist["model_timeout"] += 1
+        if ctx.dist["model_timeout"] <= 5:
+            ctx.notes.append(f"the Lean driver did not answer within {MODEL_TIME_LIMIT} s (restarted, case not judged): {json.dumps(obj)[:400]}")
+        return None
+    line = drv.p.stdout.readline()
+    if not line:
+        raise RuntimeError("driver died on " + json.dumps(obj)[:300])
+    return json.loads(line)
+
 DOCUMENTED_BACKSTOP = 200  # the nesting limit the code documents (`max_level`)
 
 
@@ -250,16 +291,6 @@ def everything(case):
     return " ".join(case.get("defs", []) + case.get("cmd", []) + [case["text"]])
 
 
-def k_d9(case, obs):
-    """some macro pastes (`##`) and some call in the text or in a body passes an empty argument (or the pasting macro is variadic)"""
-    ds = all_defs(case)
-    if not any("##" in b for _n, p, _v, b in ds if p is not None):
-        return False
-    if any(v is not None and "##" in b for _n, _p, v, b in ds):
-        return True  # a variadic parameter may be bound to no argument at all
-    return bool(re.search(r"[(,]\s*[,)]", everything(case))) or obs.get("empty_arg_seen", False)
-
-
 def d10_norm(s):
     """a string literal spelling modulo white space and modulo the quotes of character constants: the
     recorded deviations of `#` (leading blank kept, blank before the synthesized commas of a variadic argument and before a
@@ -280,6 +311,13 @@ def eq_mod_d10(a, b):
     return all(x[0] == "str" and y[0] == "str" and d10_norm(x[1]) == d10_norm(y[1]) for x, y in diff)
 
 
+def eq_mod_string_ws(a, b):
+    """equal token streams, string literals compared modulo white space (as the gcc validation of the spec does)"""
+    def f(n):
+        return [(x[0], re.sub(r"\s+", "", x[1])) if x[0] == "str" else tuple(x) for x in n]
+    return a is not None and b is not None and f(a) == f(b)
+
+
 def k_d10(case, obs):
     """uses `#`; outputs differ only inside string literals, and only by a leading blank / the quotes of character constants"""
     a, b = obs.get("impl_norm"), obs.get("spec_norm")
@@ -291,72 +329,23 @@ def k_d12(case, obs):
     return obs.get("peak", 0) >= DOCUMENTED_BACKSTOP
 
 
-def k_d35(case, obs):
-    """a macro named `None` is defined and used"""
-    return any(n == "None" for n, _p, _v, _b in all_defs(case)) and re.search(r"\bNone\b", case["text"] + " " + " ".join(" ".join(b) for _n, _p, _v, b in all_defs(case))) is not None
-
-
-def k_d36(case, obs):
-    """IndexError, and a variadic macro whose variadic parameter occurs in its replacement list only as the right-hand
-    operand of `##`, or not at all (then replace() reads a pre-expansion that was never made)"""
-    if obs.get("impl_exc") != "IndexError":
-        return False
-    for _n, p, v, b in all_defs(case):
-        if p is not None and v is not None:
-            if not any(t == v and (i == 0 or b[i - 1] != "##") for i, t in enumerate(b)):
-                return True
-    return False
-
-
-def k_d37(case, obs):
-    """a string or character literal whose content is exactly a parameter name of a macro occurs in that macro's replacement
-    list, or the macro inserts raw arguments (`#` / `##`) and such a literal occurs in the text / an argument"""
-    lits = set(t[1:-1] for t in rough_lex(everything(case)) if len(t) >= 2 and t[0] in "\"'" and t[-1] == t[0])
-    for _n, p, _v, b in all_defs(case):
-        if p:
-            for t in b:
-                if len(t) >= 2 and t[0] in "\"'" and t[-1] == t[0] and t[1:-1] in p:
-                    return True
-            if ("#" in b or "##" in b) and any(x in p for x in lits):
-                return True
-    return False
-
-
-def k_d41(case, obs):
-    """some macro pastes (`##`) and one of its calls (spelled in the text or in a replacement list) has an argument that
-    contains an identifier spelled like one of that macro's parameters: the argument's tokens, inserted unexpanded by `##`,
-    are scanned again by the substitution loop and the identifier is replaced (or IndexError if that parameter has no
-    pre-expansion)"""
-    txt = everything(case)
-    for n, p, _v, b in all_defs(case):
-        if p and "##" in b:
-            for args in call_args(txt, n):
-                if any(t in p for a in args for t in rough_lex(a)):
-                    return True
-    return False
-
-
 def k_d38(case, obs):
     """a command-line definition whose value begins with `=` (`-DX==1`)"""
     return any(re.match(r"[^=]*==", c) for c in case.get("cmd", []))
 
 
-def k_d40(case, obs):
-    """IndexError, and some macro has a parameter that occurs in its replacement list only as the operand of `#`: a
-    conforming preprocessor never macro-expands the corresponding argument, the real code does (arg_needs_expansion is set
-    for `# p`), so a call inside it that has (or, after expansion, gets) too few arguments raises IndexError"""
-    if obs.get("impl_exc") != "IndexError":
-        return False
-    for _n, p, _v, b in all_defs(case):
-        for q in p or []:
-            occ = [i for i, t in enumerate(b) if t == q]
-            if occ and all(i > 0 and b[i - 1] == "#" for i in occ):
-                return True
+def k_d42(case, obs):
+    """a string or character literal whose content is exactly `#` or `##` occurs in a replacement list (the code recognises
+    the operators by token text, whatever the kind of the token)"""
+    for _n, _p, _v, b in all_defs(case):
+        if any(t in ('"#"', '"##"', "'#'") for t in b):
+            return True
     return False
 
 
-# order matters: case-level predicates first, the loosest (D9) last
-CLASSIFIERS = [("D35", k_d35), ("D38", k_d38), ("D12", k_d12), ("D37", k_d37), ("D41", k_d41), ("D36", k_d36), ("D40", k_d40), ("D10", k_d10), ("D9", k_d9)]
+# case-level predicates first; D10 is decided on the observed difference.  The findings D9, D11, D35, D36, D37, D40, D41 are
+# repaired in the code (known_findings.json: "fixed"); their former witnesses are replayed as ordinary cases (WITNESSES).
+CLASSIFIERS = [("D38", k_d38), ("D42", k_d42), ("D12", k_d12), ("D10", k_d10)]
 
 
 def explain(case, obs, known_ids):
@@ -370,20 +359,21 @@ def explain(case, obs, known_ids):
 def classify_deviation(ctx, case, small, what, obs):
     known_ids = {k["id"] for k in ctx.known}
     fid = explain(case, obs, known_ids)
-    if fid is None and "D11" in known_ids and obs.get("adv") is not None and obs["adv"] != obs.get("faithful"):
-        # does the splice-position defect account for it, alone or together with another recorded finding?
-        adv = obs["adv"]
-        if adv.get("norm") is not None and adv["norm"] == obs.get("spec_norm"):
-            fid = "D11"
-        else:
-            o2 = dict(obs)
-            o2["impl_norm"], o2["impl_exc"] = adv.get("norm"), adv.get("exc")
-            if explain(case, o2, known_ids) is not None:
-                fid = "D11"
     if fid is not None:
         k = next(k for k in ctx.known if k["id"] == fid)
         ctx.known_finding(fid, k["what_fails"])
+        ctx.dist["known:" + fid] += 1
         return "known"
+    if obs.get("impl_norm") is not None and obs["impl_norm"] != obs.get("spec_norm") and not obs.get("gcc_validated") and gcc_available() \
+            and re.search(r"\bdefined\b", case["text"]) is None:
+        # Second opinion before a deviation from the Prosser spec counts: where a call is completed by tokens that follow the
+        # expansion in which its name was found, the standard leaves open whether the replacement is nested (C11 6.10.3.4p4,
+        # DR 017); Prosser's hide-set rule and gcc's context rule choose differently there.  An implementation result that
+        # equals gcc's (silent) result is conforming.
+        g = gcc_expand(case)
+        gn = relex_with_spec(obs["drv"], g) if g is not None and obs.get("drv") is not None else None
+        if gn is not None and eq_mod_string_ws(gn, obs["impl_norm"]):
+            return "unspecified"
     ctx.violation(what, small)
     return "violation"
 
@@ -408,6 +398,9 @@ class Gen:
         rng = self.rng
         n = rng.choice([1, 1, 2, 2, 3, 3, 4, 5, 6])
         self.names = rng.sample(NAMES, n)
+        if rng.random() < 0.04:
+            self.names[rng.randrange(n)] = "None"  # an ordinary identifier (finding D35, repaired)
+            self.flags.add("macro_named_None")
         self.kinds = {}
         for nm in self.names:
             if rng.random() < 0.4:
@@ -453,12 +446,16 @@ class Gen:
                     self.flags.add("arg_borne_recursion")
                 args.append(self.call(other, depth + 1, inbody))
             elif r < 0.50:
-                args.append("(" + rng.choice(["1", "q , r", "x" if inbody else "2", ""]) + ")")
+                args.append("(" + rng.choice(["1", "q , r", "x" if (inbody or rng.random() < 0.4) else "2", ""]) + ")")
                 self.flags.add("nested_paren_arg")
             elif r < 0.62 and inbody and self.params(inbody):
                 args.append(rng.choice(self.params(inbody)))
             elif r < 0.66:
-                args.append(rng.choice([" 'a' ", "\"s\"", " q", "q  r", "'a'", "'x'" if rng.random() < 0.1 else "'b'", '"a\\n"', '"q\\"r"']))
+                args.append(rng.choice([" 'a' ", "\"s\"", " q", "q  r", "'a'", "'x'", "'b'", '"x"', '"a\\n"', '"q\\"r"']))
+                self.flags.add("literal_arg")
+            elif r < 0.70:
+                args.append(rng.choice(["x", "y", "x y", "q x", "_ y"]))  # identifiers spelled like parameters (finding D41, repaired)
+                self.flags.add("arg_spelled_like_parameter")
             else:
                 args.append(rng.choice(["1", "q", "r s", "1 + 2", "2*3"]))
         sp = rng.choice(["", "", " "])
@@ -489,9 +486,10 @@ class Gen:
                 toks.append(self.call(other, 0, nm))
             elif r < 0.80:
                 toks.append(rng.choice(PLAIN))
-            elif r < 0.83 and ps:
+            elif r < 0.84 and ps:
                 one = [q for q in ps if len(q) == 1] or ["x"]  # CBI's lexer knows single-character constants only
                 toks.append(rng.choice(['"%s"' % rng.choice(ps), "'%s'" % rng.choice(one), '"s"']))
+                self.flags.add("literal_spelled_like_parameter")
             else:
                 toks.append(rng.choice(OPS))
         if fun and rng.random() < 0.10:
@@ -524,7 +522,7 @@ class Gen:
     def case(self):
         rng = self.rng
         self.flags = set()
-        names = self.table()
+        names = self.table()  # may set flags
         defs = []
         for nm in names:
             kd = self.kinds[nm]
@@ -549,6 +547,8 @@ class Gen:
                 r = rng.random()
                 if r < 0.75:
                     items.append(self.call(rng.choice(names)))
+                    if "call_completed_by_following_tokens" in self.flags and rng.random() < 0.5:
+                        items.append("(" + rng.choice(["1", "q", "", "1,2", "2 , r s"]) + ")")
                 elif r < 0.85:
                     items.append("(" + rng.choice(["1", "q", "", "1,2"]) + ")")  # may complete a pending call
                 else:
@@ -590,6 +590,130 @@ class Gen:
         e = nm if kd is None else nm + "(" + ", ".join(rng.choice(["1", "2", "(3)", "1 + 2", "7"]) for _ in range(len(kd[0]) + (rng.randint(0, 2) if kd[1] else 0))) + ")"
         self.kinds = save
         return e + " " + rng.choice(["==", "<", ">", "!=", ">="]) + " " + str(rng.choice([0, 1, 2, 3, 4, 6, 7, 10]))
+
+
+def _flags_of(defs, text):
+    fl = set()
+    for _n, p, v, b in all_defs({"defs": defs, "text": ""}):
+        if p is not None:
+            if "##" in b:
+                fl.add("paste")
+            if "#" in b:
+                fl.add("hash")
+            if v is not None:
+                fl.add("variadic")
+    if re.search(r"[(,]\s*[,)]", text):
+        fl.add("empty_arg")
+    return fl
+
+
+def gen_targeted(rng):
+    """shapes that the recorded (now repaired) findings D9, D11, D35, D36, D37, D40, D41 used to mask"""
+    shape = rng.choice(["paste_empty", "paste_empty", "tail_call", "tail_call", "unused_variadic", "literal_param", "named_none",
+                        "unevaluated_operand", "arg_like_param"])
+    defs, text = [], ""
+
+    def arglist(k, pool, p_empty):
+        return [("" if rng.random() < p_empty else rng.choice(pool)) for _ in range(k)]
+
+    def spaced(args):
+        return rng.choice([",", ", ", " , "]).join(args)
+
+    if shape in ("paste_empty", "arg_like_param"):
+        k = rng.choice([2, 2, 3])
+        ps = PARAMS[:k]
+        operands = [rng.choice(ps + ps + ["q", "_2", "1"]) for _ in range(rng.choice([2, 2, 3, 4]))]
+        if operands[0] == "1":
+            operands[0] = "q"
+        body = [rng.choice(["", "", "q", "1 +", "(", "r"])] + [" ## ".join(operands)] + [rng.choice(["", "", "r", ps[0], "+ " + ps[-1], ")", "## _2"])]
+        if body[-1] == "## _2":
+            body = body[:-2] + [body[-2] + " ## _2"]
+        defs.append("P(%s) %s" % (",".join(ps), " ".join(x for x in body if x)))
+        defs.append("A 7")
+        if rng.random() < 0.4:
+            defs.append(rng.choice(["W(a,b) P(a,b%s)" % (",b" if k == 3 else ""), "W(...) P(__VA_ARGS__)", "W(a, ...) P(a, __VA_ARGS__) a"]))
+        pool = ["1", "q", "r s", "_2", "A", "A q"] if shape == "paste_empty" else ["x", "y", "z", "x y", "_ x", "y + z", "q", "A x"]
+        calls = []
+        for _ in range(rng.randint(1, 3)):
+            nm = "W" if len(defs) == 3 and rng.random() < 0.4 else "P"
+            calls.append("%s(%s)" % (nm, spaced(arglist(k, pool, 0.45 if shape == "paste_empty" else 0.2))))
+        text = " ".join(calls)
+    elif shape == "tail_call":
+        names = rng.sample(["F", "G", "H"], rng.choice([2, 2, 3]))
+        for nm in names:
+            other = rng.choice(names)
+            toks = [rng.choice(["a", "a *", "a +", "( a )", "1", nm + "(a)", other + "(a)", "q a"])]
+            if rng.random() < 0.75:
+                toks.append(rng.choice(["*", "+", "", ""]))
+                toks.append(other)  # the call of `other` is completed by the tokens that follow the call of `nm`
+            defs.append("%s(a) %s" % (nm, " ".join(t for t in toks if t)))
+        if rng.random() < 0.3:
+            defs.append(rng.choice(["K B B()", "K B(q) B"]))
+            defs.append(rng.choice(["B(args...) args ( K", "B(...) __VA_ARGS__ ( " + names[0]]))
+        items = []
+        for _ in range(rng.randint(1, 3)):
+            it = rng.choice(names + (["K", "B(B(q))"] if len(defs) > len(names) else [])) 
+            if it in names:
+                it += "(%s)" % rng.choice(["2", "q", "", "r s", names[0], names[-1] + "(1)"])
+            for _ in range(rng.choice([0, 1, 1, 2, 3])):
+                it += rng.choice(["", " "]) + "(%s)" % rng.choice(["9", "q", "", "1 + 2", names[0]])
+            items.append(it)
+        text = " ".join(items)
+    elif shape == "unused_variadic":
+        head = rng.choice(["V(...)", "V(x, ...)", "V(x, args...)", "V(args...)", "V(x, y, ...)"])
+        ps = parse_def(head + " 1")[1]
+        fixed = ps[:-1]
+        body = " ".join(rng.choice(fixed + ["1", "q", "+", "#" + fixed[0] if fixed else "2", (fixed[0] + " ## _2") if fixed else "r"]) for _ in range(rng.randint(1, 4)))
+        defs.append(head + " " + body)
+        defs.append("A 7")
+        if rng.random() < 0.4:
+            defs.append("U(...) V(__VA_ARGS__) __VA_ARGS__")
+        calls = []
+        for _ in range(rng.randint(1, 3)):
+            n = len(fixed) + rng.randint(0, 3)
+            calls.append("%s(%s)" % ("U" if len(defs) == 3 and rng.random() < 0.4 else "V", spaced(arglist(n, ["1", "q", "A", "r s", "(1,2)", "V(3)"], 0.25))))
+        text = " ".join(calls)
+    elif shape == "literal_param":
+        ps = PARAMS[:rng.choice([1, 2])]
+        toks = []
+        for _ in range(rng.randint(2, 5)):
+            q = rng.choice(ps)
+            toks.append(rng.choice(['"%s"' % q, "'%s'" % q, q, "#" + q, q + " ## _2", "q", "+", '"s"']))
+        if not any(t in ps for t in toks) and rng.random() < 0.5:
+            toks.append(ps[0])
+        defs.append("L(%s) %s" % (",".join(ps), " ".join(toks)))
+        pool = ["1", "q", '"x"', "'x'", "'y'", '"y" q', "r s"]
+        text = " ".join("L(%s)" % spaced(arglist(len(ps), pool, 0.15)) for _ in range(rng.randint(1, 3)))
+    elif shape == "named_none":
+        kind = rng.choice(["obj", "obj", "fun", "param"])
+        if kind == "obj":
+            defs.append("None " + rng.choice(["1", "2 + None", "A", "", "q None r"]))
+            defs.append("A " + rng.choice(["None", "3", "None + A"]))
+            text = " ".join(rng.choice(["None", "A", "None + 1", "(None)", "q"]) for _ in range(rng.randint(1, 3)))
+        elif kind == "fun":
+            defs.append("None(x) " + rng.choice(["x", "x + None(x)", "#x", "x ## _2", "A x"]))
+            defs.append("A " + rng.choice(["None", "None(4)", "3"]))
+            text = " ".join(rng.choice(["None(1)", "None", "A", "None(None(2))", "A (5)", "None (A)"]) for _ in range(rng.randint(1, 3)))
+        else:
+            defs.append("F(None) " + rng.choice(["None + 1", "#None None", "None ## _2", "q None"]))
+            text = " ".join(rng.choice(["F(1)", "F(None)", "F()", "None"]) for _ in range(rng.randint(1, 2)))
+    else:  # unevaluated_operand: an argument that is only an operand of # / ## is never macro-expanded
+        defs.append(rng.choice(["S(x, y) #y", "S(x, y) x #y", "S(x, y) x ## y", "S(x, y) q ## y x", "S(x, y) #x #y"]))
+        defs.append(rng.choice(["T(a, b) a b", "T(a, b) a", "T(a) a"]))
+        pool = ["T(2)", "T(2, 3)", "T()", "T", "1", "T(1)(2)", "3"]
+        text = " ".join("S(%s)" % spaced(arglist(2, pool, 0.1)) for _ in range(rng.randint(1, 2)))
+    cmd = []
+    if rng.random() < 0.15:
+        keep = []
+        for d in defs:
+            m = re.match(r"(\w+(\([^)]*\))?)\s?(.*)$", d, re.S)
+            if rng.random() < 0.5 and not m.group(3).lstrip().startswith("="):
+                cmd.append(m.group(1) + "=" + m.group(3))
+            else:
+                keep.append(d)
+        defs = keep
+    flags = _flags_of(defs + [c.replace("=", " ", 1) for c in cmd], text) | {"targeted:" + shape}
+    return {"defs": defs, "cmd": cmd, "text": text, "flags": sorted(flags)}
 
 
 def gen_case(rng, arith=False, bias=None):
@@ -653,9 +777,16 @@ def looks_like_expression(text):
 def check_case(ctx, drv, cb, case, gcc=False):
     flags = case.get("flags", [])
     obs = {}
+    t0 = time.time()
     I = impl_run(cb, case)
+    impl_time = time.time() - t0
     want_old = ctx.dist["cases"] % 10 == 0  # cross-check with the older monadic port (PP/Expand.lean) used by the C01/C02 pipeline
-    R = drv.ask({"op": "c03", "defs": case.get("defs", []), "cmd": case.get("cmd", []), "text": case["text"], "old": want_old}) if drv is not None else None
+    R = None
+    if drv is not None and "timeout" not in I:
+        if impl_time > EXPENSIVE:
+            ctx.dist["expensive(model and spec not run)"] += 1
+        else:
+            R = ask(ctx, drv, {"op": "c03", "defs": case.get("defs", []), "cmd": case.get("cmd", []), "text": case["text"], "old": want_old})
     key = "+".join(f for f in flags if f in ("hash", "paste", "variadic", "recursion", "empty_arg")) or "plain"
     ctx.count(key="uses:" + key)
     for f in flags:
@@ -671,11 +802,6 @@ def check_case(ctx, drv, cb, case, gcc=False):
         return
     M, S = R["model"], R["spec"]
     obs["peak"] = R.get("peak", 0)
-    obs["misaligned"] = R.get("misaligned", False)
-    def res_of(x):
-        return {"norm": norm_model(x["ok"]) if "ok" in x else None, "exc": x.get("exc")}
-    obs["adv"] = res_of(R.get("splice_advancing", {}))
-    obs["faithful"] = res_of(M)
     obs["impl_exc"] = I.get("exc") or I.get("defexc")
     if "fuel" in M:
         ctx.notes.append(f"model ran out of fuel on {small}")
@@ -738,9 +864,14 @@ def check_case(ctx, drv, cb, case, gcc=False):
                     if gt != I["truth"]:
                         what = f"`#if {case['text']}` is {I['truth']} in CBI and {gt} in gcc"
     if what:
-        obs["empty_arg_seen"] = "empty_arg" in flags
-        ctx.dist["impl!=spec"] += 1
+        obs["gcc_validated"] = gcc
+        obs["drv"] = drv
         r = classify_deviation(ctx, case, small, what, obs)
+        if r == "unspecified":
+            ctx.dist["impl!=spec but ==gcc (unspecified nesting, not judged)"] += 1
+            ctx.extra.setdefault("spec_vs_gcc_disagreements", []).append(small)
+            return
+        ctx.dist["impl!=spec"] += 1
         if r == "known":
             ctx.dist["impl!=spec:known"] += 1
     else:
@@ -813,8 +944,12 @@ def definition_pairs(rng, n):
 # --------------------------------------------------------------------------------------------
 RULE = ("inputs = (macro table of <= 6 object-/function-like macros with bodies from the grammar {identifiers, numbers, operators, "
         "parameter uses, #p, a##b(##c)* chains, __VA_ARGS__, named variadics, string/char literals, calls to other macros incl. direct, "
-        "mutual and argument-borne recursion, trailing function-like names}, some given as -D forms) x (text of 1-4 invocations with 0..n "
-        "arguments incl. empty, nested-parenthesis, argument lists supplied by following tokens, `defined`); an arithmetic family "
+        "mutual and argument-borne recursion, trailing function-like names, macros named None}, some given as -D forms) x (text of 1-4 "
+        "invocations with 0..n arguments incl. empty, nested-parenthesis, literals and identifiers spelled like parameters, argument lists "
+        "supplied by following tokens, `defined`); a targeted family (2 of 7 cases) for the shapes the repaired findings used to mask: `##` "
+        "chains with empty operands, function-like names at the end of a replacement list completed by following `(...)` groups, unused "
+        "variadic parameters, literals spelled like parameters, macros / parameters named None, wrong-arity calls inside operands of # / ##, "
+        "arguments spelled like parameters of a pasting macro; an arithmetic family "
         "`F(args) <op> k` observed through IfNode.evaluate_for_platform; exhaustive object-like tables over 2 (quick) / 3 (thorough) names. "
         "Well-formed = the Prosser spec assigns a result (no constraint violation, no undefined behaviour; thorough: gcc -E silent and "
         "equal to the spec). Non-trivial = distinct well-formed (table, text) where at least one macro is replaced.")
@@ -833,6 +968,10 @@ ASSUMPTIONS = [
     "wrong-arity calls, unterminated calls and invalid pastes are constraint violations / undefined and outside WF (the machinery still "
     "checks model = implementation on them)",
     "truth values of the spec's token stream are computed with the real ExpressionEvaluator (C02 judges the evaluator itself)",
+    "an implementation result that differs from the Prosser spec and falls into no known-finding class is compared with `gcc -E -P` before it "
+    "counts as a violation: where a call is completed by tokens that follow the expansion its name came from, the standard leaves open whether "
+    "the replacement is nested (C11 6.10.3.4p4); Prosser's hide-set rule and gcc's context rule differ there, and a result equal to gcc's "
+    "(diagnostic-free) output is accepted (counted in the distribution, listed under spec_vs_gcc_disagreements)",
     "spec validation against gcc -E -P (thorough tier) compares pp-token spellings, string literals modulo white space (gcc keeps a blank "
     "for an empty argument inside stringified text, which the standard leaves open); inputs with `defined` in the text are validated "
     "through `#if` truth only, because gcc -E evaluates `defined` only inside #if",
@@ -848,7 +987,7 @@ def run_exhaustive(ctx, drv, cb, thorough):
         texts = ["A", "B", "A B", "B A 1"]
     n = 0
     for defs in tables:
-        if len(ctx.violations) >= 20:
+        if len(ctx.violations) >= 20 or out_of_time(ctx):
             break
         for t in texts:
             check_case(ctx, drv, cb, {"defs": defs, "text": t, "flags": ["objlike_exhaustive"], "origin": "exhaustive-objectlike"})
@@ -857,15 +996,18 @@ def run_exhaustive(ctx, drv, cb, thorough):
 
 
 WITNESSES = [
-    {"defs": ["CAT(a,b) a##b"], "text": "CAT(x,)", "flags": ["paste", "empty_arg"], "origin": "witness:D9"},
-    {"defs": ["CAT3(a,b,c) q a##b##c"], "text": "CAT3(,,z)", "flags": ["paste", "empty_arg"], "origin": "witness:D9"},
+    {"defs": ["CAT(a,b) a##b"], "text": "CAT(x,)", "flags": ["paste", "empty_arg"], "origin": "repaired:D9"},
+    {"defs": ["CAT3(a,b,c) q a##b##c"], "text": "CAT3(,,z)", "flags": ["paste", "empty_arg"], "origin": "repaired:D9"},
     {"defs": ["STR(x) #x"], "text": "STR( a ) STR('a')", "flags": ["hash"], "origin": "witness:D10"},
-    {"defs": ["f(a) a*g", "g(a) f(a)"], "text": "f(2)(9)", "flags": ["recursion"], "origin": "witness:D11"},
-    {"defs": ["None 1"], "text": "None", "flags": [], "origin": "witness:D35"},
-    {"defs": ["V(...) 1"], "text": "V(2)", "flags": ["variadic"], "origin": "witness:D36"},
-    {"defs": ["F(x) \"x\" x"], "text": "F(1)", "flags": [], "origin": "witness:D37"},
-    {"defs": ["S(x, y) #y", "T(a, b) a b"], "text": "S(1, T(2))", "flags": ["hash"], "origin": "witness:D40"},
-    {"defs": ["F(x,y) 1 ## y x"], "text": "F(2, _ x)", "flags": ["paste"], "origin": "witness:D41"},
+    {"defs": ["f(a) a*g", "g(a) f(a)"], "text": "f(2)(9)", "flags": ["recursion"], "origin": "repaired:D11"},
+    {"defs": ["None 1"], "text": "None", "flags": [], "origin": "repaired:D35"},
+    {"defs": ["V(...) 1"], "text": "V(2)", "flags": ["variadic"], "origin": "repaired:D36"},
+    {"defs": ["F(x) \"x\" x"], "text": "F(1)", "flags": [], "origin": "repaired:D37"},
+    {"defs": ["S(x, y) #y", "T(a, b) a b"], "text": "S(1, T(2))", "flags": ["hash"], "origin": "repaired:D40"},
+    {"defs": ["F(x,y) 1 ## y x"], "text": "F(2, _ x)", "flags": ["paste"], "origin": "repaired:D41"},
+    {"defs": ["CAT(a,b) a##b"], "text": "CAT(,a) CAT(b,) CAT(,) CAT(a b, a b)", "flags": ["paste", "empty_arg"], "origin": "repaired:D9+D41"},
+    {"cmd": ["F=B B()", "B(args...)=args ( F"], "text": "F B(B(q))", "flags": ["variadic"], "origin": "repaired:D11(b)"},
+    {"defs": ["F(x) \"#\" x"], "text": "F(1)", "flags": [], "origin": "witness:D42"},
     {"defs": ["A%d A%d" % (i, i + 1) for i in range(199)], "text": "A0", "flags": [], "origin": "witness:D12"},
     {"defs": ["A%d A%d" % (i, i + 1) for i in range(198)], "text": "A0", "flags": [], "origin": "boundary:198 nested macros fit"},
     {"defs": ["f(x) x"], "text": "f(" * 100 + "1" + ")" * 100, "flags": [], "origin": "deep-but-below-the-backstop"},
@@ -880,7 +1022,9 @@ WITNESSES = [
 def run(ctx, drv, search=False):
     cb = core.import_codebasin()
     ctx.rule = RULE
-    ctx.assumptions += ASSUMPTIONS
+    ctx.assumptions += [a for a in ASSUMPTIONS if a not in ctx.assumptions]
+    ctx.c03_deadline = time.time() + BUDGET["thorough" if ctx.thorough() else "quick"][1 if search else 0]
+    ctx.c03_budget_noted = False
     thorough = ctx.thorough() or search
     use_gcc = thorough and gcc_available()
     # corpus first
@@ -893,7 +1037,7 @@ def run(ctx, drv, search=False):
         check_case(ctx, drv, cb, dict(w), gcc=False)
     # definitions: command line vs #define
     for d, c in definition_pairs(ctx.rng, ctx.n(150, 1500)):
-        if len(ctx.violations) >= 20:
+        if len(ctx.violations) >= 20 or out_of_time(ctx):
             break
         check_definition(ctx, drv, cb, d, c)
     # exhaustive object-like tables (the fragment the simulation theorem covers)
@@ -906,23 +1050,34 @@ def run(ctx, drv, search=False):
     for i in range(n):
         if len(ctx.violations) >= 20 or (search and ctx.violations):
             break  # enough concrete failing inputs for the replay file
+        if out_of_time(ctx):
+            break
         arith = i % 5 == 4
         bias = None
         if i % 7 == 3:
             bias = {"paste": 0.2, "empty": 0.15}
         elif i % 7 == 5:
             bias = {"hash": 0.15, "variadic": 0.2}
-        c = gen_case(ctx.rng, arith=arith, bias=bias)
-        c["origin"] = "random-arith" if arith else "random"
+        if i % 7 in (1, 6) and not arith:
+            c = gen_targeted(ctx.rng)
+            c["origin"] = "random-targeted"
+        else:
+            c = gen_case(ctx.rng, arith=arith, bias=bias)
+            c["origin"] = "random-arith" if arith else "random"
         check_case(ctx, drv, cb, c, gcc=use_gcc and i % 5 == 0)
     total = max(1, ctx.dist["cases"])
     ctx.extra["distribution_fractions"] = {
         k: round(ctx.dist["flag:" + k] / total, 3)
         for k in ("hash", "paste", "variadic", "named_variadic", "recursion", "arg_borne_recursion", "empty_arg", "nested_paren_arg",
-                  "call_completed_by_following_tokens", "bare_funlike_name", "cmdline", "defined")
+                  "call_completed_by_following_tokens", "bare_funlike_name", "cmdline", "defined", "literal_arg", "arg_spelled_like_parameter",
+                  "literal_spelled_like_parameter", "macro_named_None", "targeted:paste_empty", "targeted:tail_call", "targeted:unused_variadic",
+                  "targeted:literal_param", "targeted:named_none", "targeted:unevaluated_operand", "targeted:arg_like_param")
     }
+    ctx.extra["known_finding_fraction_of_well_formed"] = round(ctx.dist["impl!=spec:known"] / max(1, ctx.dist["wf"]), 4)
     ctx.extra["well_formed_fraction"] = round(ctx.dist["wf"] / total, 3)
     print("C03 input distribution (fraction of generated cases): " + json.dumps(ctx.extra["distribution_fractions"]))
+    print(f"C03 well-formed cases in a known-finding class: {ctx.dist['impl!=spec:known']}/{ctx.dist['wf']} = "
+          f"{ctx.extra['known_finding_fraction_of_well_formed']:.2%}")
     print(f"C03 well-formed {ctx.dist['wf']}/{total}, impl==spec {ctx.dist['impl==spec']}, impl!=spec {ctx.dist['impl!=spec']} "
           f"(known {ctx.dist['impl!=spec:known']}), model==impl {ctx.dist['corr_agree']}, gcc agrees with spec {ctx.dist['gcc:spec_agrees']}, "
           f"gcc != spec {ctx.dist['gcc:spec_disagrees']}")
@@ -948,9 +1103,7 @@ def replay(ctx, drv, case):
         R = drv.ask({"op": "c03", "defs": case.get("defs", []), "cmd": case.get("cmd", []), "text": case["text"]})
         out["model"] = spell(norm_model(R["model"]["ok"])) if "ok" in R["model"] else R["model"]
         out["spec"] = spell(norm_spec(R["spec"]["ok"])) if "ok" in R["spec"] else R["spec"]
-        out["model_instrumentation"] = {k: R.get(k) for k in ("steps", "peak", "misaligned", "max_level")}
-        sa = R.get("splice_advancing", {})
-        out["model_with_splice_advancing"] = spell(norm_model(sa["ok"])) if "ok" in sa else sa
+        out["model_instrumentation"] = {k: R.get(k) for k in ("steps", "peak", "max_level")}
     if gcc_available():
         out["gcc -E -P"] = gcc_expand(case)
     return out
